@@ -36,8 +36,10 @@ u8 g_s0, g_s1, g_s2, g_s3;      /* their values before the call */
 
 #define POST(X) \
 	X(RET == NEED) \
-	/* numeric escape: one element carrying the value itself */ \
-	X(IMP(hexoct, D[0] == chr)) \
+	/* numeric escape: one element carrying the value itself (if a later fix makes the CALLER check the range, move the p9 clause into PRE) */ \
+	X(IMP(hexoct && chr <= 0xFF, D[0] == chr)) \
+	/* 6.4.4.4p9: a value that is not representable in the element type must have been diagnosed, not stored (truncated) */ \
+	X(IMP(hexoct, chr <= 0xFF)) \
 	/* character: RFC 3629 octets */ \
 	X(IMP(!hexoct, D[0] == spec_utf8_byte(chr, 0))) \
 	X(IMP(!hexoct && NEED > 1, D[1] == spec_utf8_byte(chr, 1))) \
